@@ -8,6 +8,7 @@ import (
 	"errors"
 	"fmt"
 	"io"
+	"strings"
 	"testing"
 
 	hyerrors "github.com/apernet/hysteria/core/v2/errors"
@@ -24,7 +25,9 @@ type c04Case struct {
 	Cuts     []int  `json:"cuts,omitempty"`
 	Zero     bool   `json:"zero_reads,omitempty"`
 	EOFLast  bool   `json:"eof_with_last_bytes,omitempty"` // the frame ends the stream and its last bytes arrive together with io.EOF
-	Stream   []byte `json:"stream,omitempty"` // for *-enc: the raw stream fed to the reader
+	Stream   []byte `json:"stream,omitempty"`              // for *-enc: the raw stream fed to the reader
+	// Bystander: another request frame and another response frame are parsed between any two reads of this stream
+	Bystander bool `json:"other_streams_parsed_between_reads,omitempty"`
 }
 
 func c04Content(class, n int) []byte {
@@ -71,6 +74,30 @@ func c04Varint(v uint64, w int) ([]byte, bool) {
 	return nil, false
 }
 
+// c04Bystander: other streams of the same process are parsed between any two reads of the stream
+// under test (the server parses every stream in its own goroutine). Whatever the parsers share
+// across calls, the frame under test must still read back identical. Added after the independently
+// seeded change C04-4 (address read into a pooled buffer that is released before the string is made).
+var c04ByReq, c04ByResp []byte
+
+func c04Bystander(c *c04Case) func() {
+	if !c.Bystander {
+		return nil
+	}
+	if c04ByReq == nil {
+		var w bytes.Buffer
+		_ = WriteTCPRequest(&w, strings.Repeat("bystander.invalid:1/", 40))
+		c04ByReq = append([]byte(nil), w.Bytes()[2:]...)
+		w.Reset()
+		_ = WriteTCPResponse(&w, false, strings.Repeat("bystander says no. ", 40))
+		c04ByResp = append([]byte(nil), w.Bytes()...)
+	}
+	return func() {
+		_, _ = ReadTCPRequest(bytes.NewReader(c04ByReq))
+		_, _, _ = ReadTCPResponse(bytes.NewReader(c04ByResp))
+	}
+}
+
 // c04Run executes one case on the real code and returns "" or the violated clause.
 func c04Run(c *c04Case) (clause string) {
 	val, stack := evidence.Catch(func() { clause = c04RunInner(c) })
@@ -101,7 +128,7 @@ func c04RunInner(c *c04Case) string {
 			return fmt.Sprintf("frame length %d, expected %d (padding length not as drawn?)", len(body), wantLen)
 		}
 		stream := append(append([]byte{}, body...), c.Trailing...)
-		r := &enum.ChunkReader{Data: stream, Cuts: c.Cuts, Err: io.EOF, ZeroReads: c.Zero, EOFWithLast: c.EOFLast}
+		r := &enum.ChunkReader{Data: stream, Cuts: c.Cuts, Err: io.EOF, ZeroReads: c.Zero, EOFWithLast: c.EOFLast, Before: c04Bystander(c)}
 		got, err := ReadTCPRequest(r)
 		if err != nil {
 			return "read error on a valid frame: " + err.Error()
@@ -130,7 +157,7 @@ func c04RunInner(c *c04Case) string {
 			return fmt.Sprintf("frame length %d, expected %d", len(body), wantLen)
 		}
 		stream := append(append([]byte{}, body...), c.Trailing...)
-		r := &enum.ChunkReader{Data: stream, Cuts: c.Cuts, Err: io.EOF, ZeroReads: c.Zero, EOFWithLast: c.EOFLast}
+		r := &enum.ChunkReader{Data: stream, Cuts: c.Cuts, Err: io.EOF, ZeroReads: c.Zero, EOFWithLast: c.EOFLast, Before: c04Bystander(c)}
 		ok, msg, err := ReadTCPResponse(r)
 		if err != nil {
 			return "read error on a valid frame: " + err.Error()
@@ -298,11 +325,17 @@ func c04Sig(c *c04Case, clause string) string {
 		}
 		return fmt.Sprintf("%s/%s/stream=%x..(%d)", c.Kind, clause, c.Stream[:n], len(c.Stream))
 	}
-	return fmt.Sprintf("%s/%s/len=%d,pad=%d,trail=%d,cuts=%v,zero=%v,eof-with-last=%v", c.Kind, clause, len(c.Addr), c.Pad, len(c.Trailing), c.Cuts, c.Zero, c.EOFLast)
+	return fmt.Sprintf("%s/%s/len=%d,pad=%d,trail=%d,cuts=%v,zero=%v,eof-with-last=%v,bystander=%v", c.Kind, clause, len(c.Addr), c.Pad, len(c.Trailing), c.Cuts, c.Zero, c.EOFLast, c.Bystander)
 }
 
 func c04Run1(sh *evidence.Shard, p *evidence.Part, c *c04Case) {
-	if len(c.Trailing) == 0 && !c.EOFLast && c.Stream == nil {
+	if len(c.Trailing) == 0 && !c.EOFLast && !c.Bystander && c.Stream == nil && (strings.HasSuffix(c.Kind, "-rt") || len(c.Cuts) <= 1) {
+		// the same case once more with other streams parsed between any two reads of this one
+		cb := *c
+		cb.Bystander = true
+		c04Run1(sh, p, &cb)
+	}
+	if len(c.Trailing) == 0 && !c.EOFLast && !c.Bystander && c.Stream == nil {
 		// the frame is the last thing on the stream (e.g. a refused dial: response, then FIN):
 		// the same case once more with the final bytes delivered together with io.EOF
 		cc := *c
